@@ -3,8 +3,8 @@
    clientOffers / ampClientOffers handlers (broker/http.go, broker/amp.go) over an abstract
    IPC.ClientOffers.
 
-   Library boundary: url.Parse (URLs enter as accessor records), ResolveReference is modelled
-   for base paths without dot segments (prefix up to the last slash ++ reference), the HTTP
+   Library boundary: url.Parse (URLs enter as accessor records), ResolveReference's path
+   resolution (url.resolvePath: dot segments removed, empty segments kept) is modelled, the HTTP
    transport (a request is the record the RoundTripper receives), AMP armor (Section
    variable; C10's area), idna/sha256 as in CacheURL.v.
    Executable definitions only. *)
@@ -54,10 +54,41 @@ Definition with_front (front : bytes) (q : request) : request :=
           q_host_header := q_connect_host q; q_path := q_path q; q_rawquery := q_rawquery q;
           q_body := q_body q |}.
 
+(* url.resolvePath(base, ref) of Go 1.23, as ResolveReference calls it (both arguments escaped paths).
+   The loop keeps a string dst = "/" ++ elements joined by "/" and a flag first; here the elements written so far are a
+   reversed stack (first = the stack is empty). "." on an empty stack clears the flag, so that the next element is
+   written after a second "/": the same string as an empty first element, which is what is pushed. ".." drops the last
+   element, or everything when at most one element (no "/" in dst[1:]) is left. *)
+Fixpoint rp_stack (elems : list bytes) (st : list bytes) : list bytes :=
+  match elems with
+  | [] => st
+  | e :: r =>
+      if is_dot e then rp_stack r (match st with [] => [[]] | _ => st end)
+      else if is_dotdot e then rp_stack r (match st with [] => [] | [_] => [] | _ :: st' => st' end)
+      else rp_stack r (e :: st)
+  end.
+Definition last_is_dots (elems : list bytes) : bool :=
+  match rev elems with e :: _ => is_dot e || is_dotdot e | [] => false end.
+Definition resolve_path (base ref : bytes) : bytes :=
+  let full := match ref with
+              | [] => base
+              | c :: _ => if c =? SLASHC then ref else upto_last SLASHC base ++ ref
+              end in
+  match full with
+  | [] => []
+  | _ :: _ =>
+      let elems := split_on SLASHC full in
+      let r := SLASHC :: join [SLASHC] (rev (rp_stack elems [])) ++ (if last_is_dots elems then [SLASHC] else []) in
+      match r with
+      | _ :: c :: _ => if c =? SLASHC then tl r else r      (* "we wrote an initial '/', but we don't want two" *)
+      | _ => r
+      end
+  end.
+
 Definition http_request (b : broker_url) (front body : bytes) : request :=
   with_front front
     {| q_method := bs "POST"; q_scheme := b_scheme b; q_connect_host := b_host b;
-       q_host_header := b_host b; q_path := resolve_rel (b_epath b) (bs "client");
+       q_host_header := b_host b; q_path := resolve_path (b_epath b) (bs "client");
        q_rawquery := []; q_body := Some body |}.
 
 (* limitedRead: ReadAll of a LimitedReader of limit+1 bytes; error when limit+1 bytes arrived.
@@ -81,7 +112,7 @@ Section AmpCache.
   (* the URL of the broker's AMP endpoint for this poll, as a publisher URL *)
   Definition amp_pub_url (b : broker_url) (cache_breaker data : bytes) : pub_url :=
     {| p_scheme := b_scheme b; p_user := b_user b; p_hostname := b_hostname b; p_port := b_port b;
-       p_epath := resolve_rel (b_epath b) (AMP_PREFIX ++ encode_path cache_breaker data);
+       p_epath := resolve_path (b_epath b) (AMP_PREFIX ++ encode_path cache_breaker data);
        p_rawquery := []; p_fragment := [] |}.
 
   (* None = Exchange returns an error before any request is made *)
